@@ -82,6 +82,10 @@ func (fs *FS) addMount(p string, mountFS hackpadfs.FS) error {
 
 // Mount implements hackpadfs.MountFS
 func (fs *FS) Mount(path string) (mount hackpadfs.FS, subPath string) {
+	if !hackpadfs.ValidPath(path) {
+		// leave the invalid path untouched, so the root FS rejects it
+		return fs.rootFS, path
+	}
 	mount, mountPath, subPath := fs.mountPoint(path)
 	if mountPath == "." {
 		return mount, path
@@ -123,6 +127,9 @@ func (fs *FS) mountPoint(path string) (_ hackpadfs.FS, mountPoint, subPath strin
 
 // Open implements hackpadfs.FS
 func (fs *FS) Open(name string) (hackpadfs.File, error) {
+	if !hackpadfs.ValidPath(name) {
+		return nil, &hackpadfs.PathError{Op: "open", Path: name, Err: hackpadfs.ErrInvalid}
+	}
 	mountFS, mountPoint, subPath := fs.mountPoint(name)
 	file, err := mountFS.Open(subPath)
 	return file, restoreErrPath(err, mountPoint)
@@ -167,6 +174,9 @@ func (fs *FS) MountPoints() []Point {
 
 // Rename implements hackpadfs.RenameFS
 func (fs *FS) Rename(oldname, newname string) error {
+	if !hackpadfs.ValidPath(oldname) || !hackpadfs.ValidPath(newname) {
+		return &hackpadfs.LinkError{Op: "rename", Old: oldname, New: newname, Err: hackpadfs.ErrInvalid}
+	}
 	oldMount, oldPoint, oldSubPath := fs.mountPoint(oldname)
 	newMount, newPoint, newSubPath := fs.mountPoint(newname)
 	oldInfo, err := hackpadfs.Stat(oldMount, oldSubPath)
